@@ -107,12 +107,11 @@ def run(ctx):
     if ctx.quick:
         sorts = seqs(4, 4)
         base = seqs(4, 3)
-        pairs = [(a, b) for a in base for b in base]
-        if len(pairs) > 3000:
-            keep = [p for p in pairs if len(p[0]) == len(p[1]) and sorted(p[0]) == sorted(p[1])]
-            rest = [p for p in pairs if not (len(p[0]) == len(p[1]) and sorted(p[0]) == sorted(p[1]))]
-            rnd.shuffle(rest)
-            pairs = keep + rest[:3000 - len(keep)]
+        pairs = [(a, b) for a in base for b in base]          # every ordered pair of sequences of length <= 3 over {0..3}
+        l4 = [list(t) for t in itertools.product(range(4), repeat=4)]
+        for b in ([0, 1, 2, 3], [3, 2, 1, 0], [1, 1, 1, 1], [0, 0, 3, 3], [2, 0, 3, 1]):
+            pairs += [(a, b) for a in l4]                      # distinguished second arguments against every length-4 first argument
+            pairs += [(b, a) for a in l4 if rnd.random() < 0.25]
         nlong = 60
     else:
         sorts = seqs(5, 6)
